@@ -1,3 +1,4 @@
+mod blobmc;
 mod cfilter;
 mod driver;
 mod evidence;
@@ -85,6 +86,7 @@ fn run_hx(prop: &str, tier: &str) -> i32 {
             max_nodes,
             max_wall_s: remaining,
             threads: threads(),
+            known_sigs: known.iter().filter(|k| k.property == prop).map(|k| k.sig.clone()).collect(),
         };
         let r = hx::explore(sc.clone(), &lim);
         eprintln!(
